@@ -28,6 +28,13 @@ EPS = 2.220446049250313e-16
 REL = 1e-5  # relative agreement demanded between autograd and the finite-difference derivative
 
 
+DEADLINE = [None]  # absolute time after which no further implementation evaluation is started
+
+
+def out_of_time():
+    return DEADLINE[0] is not None and time.time() > DEADLINE[0]
+
+
 class NotInterior(Exception):
     """a perturbed point left the domain / crossed a tie / could not be evaluated"""
 
@@ -126,6 +133,8 @@ def fd_directional(scen, vals, direction, base_sig, h0, ntab):
     def f(t):
         if t in cache:
             return cache[t]
+        if out_of_time():
+            raise NotInterior("deadline")
         try:
             v, b = eval_value(scen, shifted(vals, direction, t))
         except NotInterior:
@@ -201,6 +210,52 @@ def leaf_coords(scen, name):
     return list(scen.coords.get(name, range(len(scen.x[name]))))
 
 
+def check_nonfinite(ck, scen, vals, grads, v0, out, ntab=4):
+    """gradients must be FINITE wherever the value is finite and its finite difference is finite.
+    Looks at every differentiated coordinate of `grads` (taken at `vals`); confirms the first non-finite one
+    per leaf with a finite difference. Returns the names of the leaves with a non-finite gradient."""
+    hit = []
+    b0 = sig = None
+    for name in sorted(vals):
+        coords = leaf_coords(scen, name)
+        g = grads.get(name)
+        if not coords or g is None:
+            continue
+        nonfin = [c for c in coords if not math.isfinite(g[c])]
+        if not nonfin:
+            continue
+        hit.append(name)
+        if len(hit) > 2 or out_of_time():
+            continue
+        c = nonfin[0]
+        dvec = [0.0] * len(vals[name])
+        dvec[c] = 1.0
+        try:
+            if b0 is None:
+                b0 = scen.make(vals, False)
+                sig = signature(b0)
+            h0 = initial_step(scen, vals, {name: dvec}, b0, sig)
+            fd = fd_directional(scen, vals, {name: dvec}, sig, h0, ntab)
+        except NotInterior as e:
+            ck.bucket("skipped/not-interior")
+            out["skip"].append((scen.name, name + ":nonfinite-grad", str(e)[:120]))
+            continue
+        except Exception as e:
+            out["skip"].append((scen.name, name + ":nonfinite-grad", f"{type(e).__name__}"))
+            continue
+        out["evals"] += fd["evals"]
+        ck.case(key=(scen.name, name, "nonfinite%d" % c, tuple(vals[name])), bucket=f"{scen.family}/coord",
+                sample={"scenario": scen.name, "leaf": name, "direction": "coord%d" % c, "autograd": str(g[c]),
+                        "finite_difference": fd["d"]})
+        if math.isfinite(fd["d"]) and fd["err"] + fd["floor"] <= 1e-3 * max(abs(fd["d"]), 1e-6) + 1e-9:
+            out["bad"].append({
+                "kind": "non-finite-gradient", "scenario": scen.name, "spec": dict(scen.spec, x=vals), "leaf": name,
+                "direction": dvec, "label": "coord%d" % c, "autograd": str(g[c]), "grad_is_none": False,
+                "finite_difference": fd["d"], "fd_error_estimate": fd["err"], "tolerance": tolerance(0.0, fd),
+                "h0": fd["h0"], "value": v0, "non_finite_coordinates": nonfin[:10]})
+    return hit
+
+
 def check_scenario(ck, scen, rng, ntab, per_leaf_coords, out):
     """run the oracle on one scenario; append findings to out['bad'] / skips to out['skip']"""
     vals = scen.x
@@ -231,12 +286,19 @@ def check_scenario(ck, scen, rng, ntab, per_leaf_coords, out):
         out["skip"].append((scen.name, "near-tie", str(gap)))
         ck.bucket("skipped/near-tie")
         return
+    found_here = 0
+    nonfinite_leaves = check_nonfinite(ck, scen, vals, grads, v0, out, ntab)
     for name in sorted(vals):
         coords = leaf_coords(scen, name)
         if not coords:
             continue
+        if found_here >= 2 or out_of_time():
+            return  # enough evidence from this configuration: keep what was found, do not repeat evaluations
         g = grads.get(name)
         gl = [0.0] * len(vals[name]) if g is None else g
+        if name in nonfinite_leaves:
+            found_here += 1
+            continue
         tasks = []
         if len(coords) > 1:
             dvec = [0.0] * len(vals[name])
@@ -250,6 +312,8 @@ def check_scenario(ck, scen, rng, ntab, per_leaf_coords, out):
             dvec[c] = 1.0
             tasks.append(("coord%d" % c, dvec))
         for label, dvec in tasks:
+            if out_of_time():
+                return
             direction = {name: dvec}
             gd = sum(a * b for a, b in zip(gl, dvec))
             key = (scen.name, name, label)
@@ -281,6 +345,8 @@ def check_scenario(ck, scen, rng, ntab, per_leaf_coords, out):
                     "autograd": None if g is None else gd, "grad_is_none": g is None,
                     "finite_difference": fd["d"], "fd_error_estimate": fd["err"], "tolerance": tol, "h0": fd["h0"],
                     "value": v0})
+                found_here += 1
+                break  # one failing direction per leaf is the finding; no further evaluations for this leaf
             else:
                 ck.bucket("agree" if abs(fd["d"]) > tol else "agree/zero-derivative")
 
@@ -311,6 +377,8 @@ def check_reuse(ck, scen, rng, out):
         v_f, g_f, b_f = eval_grad(scen, new)
         if signature(b_f) != signature(scen.make(vals, False)):
             return
+        if math.isfinite(v_f) and check_nonfinite(ck, scen, new, g_f, v_f, out):
+            return
         for k, p in b.params.items():
             t = torch.tensor(new[k], dtype=torch.float64, requires_grad=True)
             p.tensor = t
@@ -334,7 +402,7 @@ def check_reuse(ck, scen, rng, out):
         for i in leaf_coords(scen, k):
             a = 0.0 if got is None else got[i]
             w = 0.0 if want is None else want[i]
-            if abs(a - w) > 1e-8 * max(abs(a), abs(w)) + 1e-11:
+            if not (abs(a - w) <= 1e-8 * max(abs(a), abs(w)) + 1e-11):
                 out["bad"].append({"kind": "gradient-differs-on-reuse", "scenario": scen.name, "spec": scen.spec,
                                    "leaf": k, "coord": i, "new_point": new, "reused_object_grad": a,
                                    "fresh_object_grad": w})
@@ -351,6 +419,8 @@ def _history_leaves(scen, built):
             continue
         if scen.family == "coal" and k == "nh":
             continue
+        if not leaf_coords(scen, k):
+            continue  # held fixed at a special value
         out.append(k)
     return sorted(out)
 
@@ -373,6 +443,7 @@ def _zero_grads(built):
 def _compare_with_fresh(ck, scen, vals, got, want, names, history, out, kind):
     """every history gradient must equal the fresh-object gradient (itself checked against finite
     differences); a disagreement is confirmed with a finite difference before it is reported"""
+    confirmations = 0
     for k in names:
         w = want.get(k)
         g = got.get(k)
@@ -381,6 +452,11 @@ def _compare_with_fresh(ck, scen, vals, got, want, names, history, out, kind):
             b = 0.0 if w is None else w[i]
             if abs(a - b) <= 1e-7 * max(abs(a), abs(b)) + 1e-10:
                 continue
+            # at most two finite-difference confirmations per history (a systematic disagreement shows in
+            # the first coordinate; never one big-tree finite difference per coordinate)
+            if confirmations >= 2 or out_of_time():
+                return True
+            confirmations += 1
             dvec = [0.0] * len(vals[k])
             dvec[i] = 1.0
             try:
@@ -391,8 +467,17 @@ def _compare_with_fresh(ck, scen, vals, got, want, names, history, out, kind):
             except NotInterior:
                 ck.bucket("history/skipped-not-interior")
                 return True
-            if abs(a - fd["d"]) <= tolerance(a, fd):
-                continue  # the history gradient is the right one; the fresh one is judged by check_scenario
+            if math.isfinite(a) and abs(a - fd["d"]) <= tolerance(a, fd):
+                # the history gradient is the right one: then the FRESH-object gradient disagrees with the
+                # finite difference, which is a finding of its own (reported once)
+                if math.isfinite(b) and abs(b - fd["d"]) <= tolerance(b, fd):
+                    continue
+                out["bad"].append({"kind": "wrong-gradient", "scenario": scen.name, "spec": dict(scen.spec, x=vals),
+                                   "leaf": k, "direction": dvec, "label": "coord%d" % i, "autograd": b,
+                                   "grad_is_none": w is None, "finite_difference": fd["d"],
+                                   "fd_error_estimate": fd["err"], "tolerance": tolerance(b, fd), "h0": fd["h0"],
+                                   "value": None})
+                return False
             out["bad"].append({"kind": kind, "scenario": scen.name, "spec": scen.spec, "leaf": k, "coord": i,
                                "history": history, "point": vals, "grad_is_none": g is None,
                                "history_grad": None if g is None else a, "fresh_object_grad": b,
@@ -480,6 +565,8 @@ def history_update_one(ck, scen, rng, out, inplace):
         new = {k: (nv if k == name else list(v)) for k, v in vals.items()}
         v_f, g_f, b_f = eval_grad(scen, new)
         if signature(b_f) != signature(scen.make(vals, False)):
+            return
+        if math.isfinite(v_f) and check_nonfinite(ck, scen, new, g_f, v_f, out):
             return
         p = b.params[name]
         if inplace:
@@ -602,6 +689,8 @@ def _run(ck: Check):
     thorough = ck.thorough()
     budget = (780 if thorough else 62) - (time.time() - t_start)
     t0 = time.time()
+    # hard stop for implementation evaluations, findings or not: what was found so far is reported
+    DEADLINE[0] = t_start + (870 if thorough else 125)
     # corpus first
     for f in sorted((VERIF / "corpus" / "C12").glob("*.json")):
         try:
@@ -615,8 +704,11 @@ def _run(ck: Check):
     done = 0
     fam_seen = {}
     for i, th in enumerate(thunks):
-        if time.time() - t0 > budget:
+        if time.time() - t0 > budget or out_of_time():
             ck.notes.append(f"time budget reached after {i}/{len(thunks)} configurations")
+            break
+        if len({(b["kind"], "/".join(b["scenario"].split("/")[:2]), b.get("leaf", "-")) for b in out["bad"]}) >= 8:
+            ck.notes.append(f"stopped after {i}/{len(thunks)} configurations: 8 distinct findings already recorded")
             break
         try:
             spec = th()
@@ -647,6 +739,8 @@ def _one_configuration(ck, scen, spec, rng, thorough, i, out):
                 ck.bucket("underflow/switched-to-rescaled" if _b.model.rescale else "underflow/no-switch")
             except Exception:
                 pass
+        if out_of_time() or any(b["scenario"] == scen.name for b in out["bad"]):
+            return  # this configuration already produced a finding: no further (possibly big-tree) work on it
         if thorough or i % 2 == 0:
             check_reuse(ck, scen, rng, out)
         # histories on live objects: late enabling of autograd, single-parameter updates
@@ -683,6 +777,9 @@ def _finish(ck, out, fam_seen, ok, broken, st_ok):
 
 def _describe(bad):
     k = bad["kind"]
+    if k == "non-finite-gradient":
+        return (f"{bad['scenario']}: d/d{bad['leaf']}[{bad['label']}] autograd={bad['autograd']} (not finite) although the "
+                f"value is finite and its finite difference = {bad['finite_difference']:.10g} (+-{bad['fd_error_estimate']:.2g})")
     if k in ("wrong-gradient", "missing-gradient"):
         return (f"{bad['scenario']}: d/d{bad['leaf']}[{bad['label']}] autograd="
                 f"{'None' if bad['grad_is_none'] else '%.10g' % bad['autograd']} but finite difference of the returned "
@@ -722,7 +819,7 @@ def replay(path: str) -> int:
         return c12_corr.replay(bad)
     scen = c12_scen.scenario(bad["spec"])
     print("scenario:", scen.name)
-    if bad["kind"] in ("wrong-gradient", "missing-gradient"):
+    if bad["kind"] in ("wrong-gradient", "missing-gradient", "non-finite-gradient"):
         v0, grads, b0 = eval_grad(scen, scen.x)
         name, dvec = bad["leaf"], bad["direction"]
         g = grads.get(name)
@@ -732,7 +829,7 @@ def replay(path: str) -> int:
         print(f"value {v0!r}")
         print(f"autograd  d/d{name}{dvec} = {gd!r}")
         print(f"finite difference        = {fd['d']!r}  (error estimate {fd['err']:.3g}, tolerance {tol:.3g})")
-        viol = abs((gd or 0.0) - fd["d"]) > tol
+        viol = not (abs((gd or 0.0) - fd["d"]) <= tol)  # a NaN gradient violates
         print("VIOLATES" if viol else "ok")
         return 1 if viol else 0
     out = {"bad": [], "skip": [], "evals": 0}
